@@ -334,6 +334,10 @@ def flow_case(cid, grid, steps, timeout_ms=None):
         if st.get("op") == "new" and "via" not in st and vr.random() < 0.25:
             st["via"] = "assign"
             st["via_ops"] = vr.choice(VIA_DONORS)
+    # a mask is a value: about a third of the set_mask calls hand it over in another form
+    for st in steps:
+        if st.get("op") == "mask" and "form" not in st and vr.random() < 0.35:
+            st["form"] = vr.choice(["col", "xtensor", "expr", "flip_own"])
     c = dict(kind="flow", id=cid, grid=grid, steps=steps)
     if timeout_ms:
         c["timeout_ms"] = timeout_ms
